@@ -21,14 +21,22 @@ def max_nesting(text):
     return m
 
 
+COMMENT_ID = "C09-unclosed-nested-comments-exponential"
+
+
 def classify(ctx, kind, t):
-    """ABORT (native stack overflow) on texts nested deeper than 500 levels is the recorded finding."""
+    """ABORT (native stack overflow) on texts nested deeper than 500 levels is the recorded finding; so is a TIMEOUT on a text
+    with many unclosed `/*` (the meta-grammar's block_comment rule re-scans the rest once per opener)."""
     i, op, imp, verdict = t
-    if kind != "oracle" or "ABORT" not in imp:
+    if kind != "oracle" or ("ABORT" not in imp and "TIMEOUT" not in imp):
         return None
     try:
         text = binascii.unhexlify(op.split()[1]).decode(errors="replace")
     except Exception:
+        return None
+    if "TIMEOUT" in imp:
+        if text.count("/*") - text.count("*/") >= 15 and ctx.match_known(lambda k: k["id"] == COMMENT_ID):
+            return {"id": COMMENT_ID, "what": "the meta-grammar's block_comment = _{ \"/*\" ~ (block_comment | !\"*/\" ~ ANY)* ~ \"*/\" } takes time exponential in the number of unclosed `/*` openers (each is first tried as a nested comment, which scans to the end and fails, then re-scanned as text): a = { \"x\" } followed by 22 times `/* ` takes 16 s, 40 times does not finish; the result is the correct located error"}
         return None
     if max_nesting(text) > 500 and ctx.match_known(lambda k: k["id"] == DEEP_ID):
         return {"id": DEEP_ID, "what": "the recursive-descent front-end (generated meta-parser, consume_expr, validator, optimizer) overflows the native stack and aborts on expressions nested a few thousand levels deep, e.g. a = { (((…\"x\"…))) } with 3000 parentheses"}
